@@ -376,6 +376,35 @@ func (g *G) addr() *built {
 	return p
 }
 
+// addrFresh is an addr message for a node whose peers database is (nearly) full: addresses it does not
+// know (12.x.y.z), routable, with the segwit service bit, seen ten minutes ago (time marker 1, resolved
+// at execution) or "in the future" (clamped to now by ParseAddr at the price of a misbehaviour score);
+// optionally mixed with addresses the database already holds (11.x.y.z, see knownPeerIP).
+func (g *G) addrFresh() msg {
+	n := pick(g, []int{1, 1, 2, 2, 3, 5, 12})
+	if g.chance(6) {
+		n = g.n(200, 1000, "manyaddr")
+	}
+	var p built
+	p.cs(uint64(n))
+	for i := 0; i < n; i++ {
+		tm := uint32(1)
+		if g.chance(10) {
+			tm = pick(g, []uint32{0x7fffffff, 0xffffffff, genesisTime})
+		}
+		ip := [4]byte{12, byte(g.k(256)), byte(g.k(256)), byte(1 + g.k(250))}
+		if g.chance(20) {
+			ip = knownPeerIP(g.n(0, peersLimit-10, "knownidx"))
+		}
+		svc := goodServices
+		if g.chance(5) {
+			svc = 1 // no segwit: ignored
+		}
+		p.w(le32(tm), netAddr(svc, ip, 8333))
+	}
+	return msg{Cmd: "addr", Pl: hex.EncodeToString(p.b.Bytes()), Kind: "wf", Dyn: "addr_fresh"}
+}
+
 func (g *G) invLike() *built {
 	p := &built{}
 	n := g.n(0, 8, "ninv")
